@@ -180,6 +180,28 @@ def make_classes(mode, rec, uidgen, varlen=False):
             self.__dict__['_lca'] = value
             rec.decisions.append((rec.sim.vnow(), threading.current_thread().name))
 
+        # who drops which connection: the connection object is set by connectStart and cleared by closeConnection
+        @property
+        def _conn(self):
+            return self.__dict__.get('_conn_obj')
+
+        @_conn.setter
+        def _conn(self, value):
+            self.__dict__['_conn_obj'] = value
+            me = threading.current_thread().name
+            if value is None:
+                rec.conn_events.append((rec.sim.vnow(), 'cleared', me, rec.close_begun.get(me)))
+            else:
+                rec.conn_events.append((rec.sim.vnow(), 'set', me, None))
+
+        def closeConnection(self):
+            me = threading.current_thread().name
+            rec.close_begun[me] = rec.sim.vnow()
+            try:
+                super().closeConnection()
+            finally:
+                rec.close_begun.pop(me, None)
+
         if varlen and mode == 'bytes':
             def getFullReply(self, request, replyheader):
                 # variable-length protocol: the header announces a body, which is read separately
@@ -216,6 +238,8 @@ class Recorder:
         self.sim = sim
         self.calls = []
         self.decisions = []
+        self.conn_events = []      # (vtime, 'set'|'cleared', task, begin of the closeConnection call in progress)
+        self.close_begun = {}
 
 
 class C16(Check):
@@ -829,6 +853,16 @@ class C16(Check):
                 # again - and it is gone: somebody closed a connection which was not his (not the stale True of a
                 # read wrapper, where the connection is opened before the False)
                 site = 'fresh-connection-closed'
+                # by whom?  by a closeConnection() which had begun before that connection existed (it made the state
+                # visible first and dropped the connection afterwards), or by a call of its own which begun later (a
+                # caller whose failure belongs to the previous connection closes the one just made)
+                evs = ctx['rec'].conn_events
+                sets = [e for e in evs if e[1] == 'set']
+                if sets:
+                    t_set = sets[-1][0]
+                    cl = next((e for e in evs if e[1] == 'cleared' and e[0] >= t_set - 1e-9), None)
+                    if cl is not None and cl[3] is not None and cl[3] >= t_set - 1e-9:
+                        site = 'fresh-connection-closed|by-a-later-failure'
             res.append(Violation('C16.not-healed', site,
                                  f'is_connected is True but there is no connection: every call fails with "disconnected" '
                                  f'and no reconnect is attempted any more; connect log {ctx["connect_log"][-3:]}'))
